@@ -476,6 +476,147 @@ def check_views(h, eng):
     return fails[:3]
 
 
+class Sensor(Process):
+    """a process WITHOUT glob ports whose port `site` is wired outwards to the site its agent lives in"""
+    defaults = {'timestep': 1.0}
+
+    def __init__(self, parameters=None):
+        super().__init__(parameters)
+        self.seen = []
+
+    def ports_schema(self):
+        return {'local': {'reading': {'_default': 0.0, '_updater': 'set'}}, 'site': {'temp': {'_default': 0.0}}}
+
+    def next_update(self, timestep, states):
+        self.seen.append((L.gt(), copy.deepcopy(states)))
+        return {'local': {'reading': states['site']['temp']}}
+
+
+class Heater(Process):
+    defaults = {'timestep': 1.0, 'by': 1.0}
+
+    def ports_schema(self):
+        return {'site': {'temp': {'_default': 0.0}}}
+
+    def next_update(self, timestep, states):
+        return {'site': {'temp': self.parameters['by']}}
+
+
+class Mover(Process):
+    defaults = {'timestep': 1.0, 'script': {}}
+
+    def __init__(self, parameters=None):
+        super().__init__(parameters)
+        self.calls = 0
+
+    def ports_schema(self):
+        return {'one': {'*': {}}, 'two': {'*': {}}}
+
+    def next_update(self, timestep, states):
+        self.calls += 1
+        mv = self.parameters['script'].get(self.calls)
+        if not mv:
+            return {}
+        key, src, dst = mv
+        if key not in states[src]:
+            return {}
+        return {src: {'_move': [{'source': (key,), 'target': (dst,)}]}}
+
+
+def check_moved_views(script, ticks=6):
+    """C07 for processes that are moved: a sensor wired to ('..','..') always reads the site that contains it NOW"""
+    sensors = {'a': Sensor(), 'b': Sensor()}
+    wiring = {'local': ('local',), 'site': ('..', '..')}
+    where = {'a': 'site1', 'b': 'site2'}
+    port_of = {'site1': 'one', 'site2': 'two'}
+    try:
+        eng = Engine(processes={'site1': {'agents': {'a': {'sensor': sensors['a']}}, 'heater': Heater({'by': 1.0})},
+                                'site2': {'agents': {'b': {'sensor': sensors['b']}}, 'heater': Heater({'by': 10.0})},
+                                'mover': Mover({'script': {int(k): v for k, v in script.items()}})},
+                     topology={'mover': {'one': ('site1', 'agents'), 'two': ('site2', 'agents')},
+                               'site1': {'agents': {'a': {'sensor': dict(wiring)}}, 'heater': {'site': ()}},
+                               'site2': {'agents': {'b': {'sensor': dict(wiring)}}, 'heater': {'site': ()}}},
+                     initial_state={'site1': {'temp': 100.0}, 'site2': {'temp': 2000.0}}, display_info=False, emitter='null')
+        fails = []
+        for tick in range(1, ticks + 1):
+            before = {k: len(s.seen) for k, s in sensors.items()}
+            val0 = strip_procs(eng.state.get_value())
+            located = {k: ('site1' if k in (val0['site1'].get('agents') or {}) else 'site2') for k in sensors}
+            eng.update(1)
+            for k, sn in sensors.items():
+                for t, states in sn.seen[before[k]:]:
+                    want = val0[located[k]]['temp']
+                    if states['site']['temp'] != want:
+                        fails.append('tick %d: the sensor of agent %s lives in %s (temp %r) but was shown temp %r'
+                                     % (tick, k, located[k], want, states['site']['temp']))
+                    if set(states) != {'local', 'site'} or set(states['site']) != {'temp'}:
+                        fails.append('tick %d: the sensor of %s was shown %r' % (tick, k, states))
+        val = strip_procs(eng.state.get_value())
+        for k in sensors:
+            n = sum(1 for site in ('site1', 'site2') if k in (val[site].get('agents') or {}))
+            if n != 1:
+                fails.append('agent %s exists %d times after the moves' % (k, n))
+    except Exception as e:
+        return ['engine raised %s: %s' % (type(e).__name__, str(e)[:200])]
+    return fails[:3]
+
+
+MOVE_SCRIPTS = [{'2': ['a', 'one', 'two']}, {'1': ['a', 'one', 'two'], '3': ['a', 'two', 'one']},
+                {'2': ['a', 'one', 'two'], '3': ['b', 'two', 'one']}, {'2': ['b', 'two', 'one'], '4': ['b', 'one', 'two']}]
+
+
+class Release(Process):
+    """moves its cargo variables to a target given as port / (port,) / (port, sub, ...) and removes its own vesicle"""
+    defaults = {'timestep': 1.0, 'target': 'env', 'agent_id': 'v1'}
+
+    def ports_schema(self):
+        mol = {'_default': 0.0}
+        return {'cargo': {'*': dict(mol)},
+                'env': {'A': dict(mol), 'B': dict(mol), 'pool': {'A': dict(mol), 'B': dict(mol), 'deep': {'A': dict(mol)}}},
+                'vesicles': {'*': {}}}
+
+    def next_update(self, timestep, states):
+        tgt = self.parameters['target']
+        tgt = tuple(tgt) if isinstance(tgt, list) else tgt
+        return {'cargo': {'_move': [{'source': (m,), 'target': tgt} for m in sorted(states['cargo'])]},
+                'vesicles': {'_delete': [self.parameters['agent_id']]}}
+
+
+def check_cargo_move(target, cargo):
+    """_move of leaf variables to a target below a port: values arrive exactly there (merged into variables that exist),
+    the source is detached, bystanders keep their values"""
+    env0 = {'A': 10.0, 'B': 20.0, 'pool': {'A': 1.0, 'B': 0.5, 'deep': {'A': 0.25}}}
+    try:
+        sim = Engine(processes={'vesicles': {'v1': {'release': Release({'target': target})}}},
+                     topology={'vesicles': {'v1': {'release': {'cargo': ('cargo',), 'env': ('..', '..', 'env'),
+                                                              'vesicles': ('..', '..', 'vesicles')}}}},
+                     initial_state={'vesicles': {'v1': {'cargo': dict(cargo)}}, 'env': copy.deepcopy(env0)},
+                     display_info=False, emitter='null')
+        sim.update(2.0)
+        state = strip_procs(sim.state.get_value())
+    except Exception as e:
+        return ['engine raised %s: %s' % (type(e).__name__, str(e)[:200])]
+    sub = tuple(target[1:]) if isinstance(target, (list, tuple)) else ()
+    want = copy.deepcopy(env0)
+    node = want
+    for k in sub:
+        node = node[k]
+    for m, v in cargo.items():
+        node[m] = node.get(m, 0.0) + v if isinstance(node.get(m, 0.0), float) else v
+    fails = []
+    if state.get('vesicles'):
+        fails.append('the vesicle was not removed: %r' % (state.get('vesicles'),))
+    if state.get('env') != want:
+        fails.append('_move to target %r: env is %r, expected %r (cargo %r arrives below %r, nothing else changes)'
+                     % (target, state.get('env'), want, cargo, ('env',) + sub))
+    return fails[:2]
+
+
+CARGO_CASES = [(t, c) for t in ('env', ['env'], ['env', 'pool'], ['env', 'pool', 'deep'])
+               for c in ({'A': 3.0}, {'A': 3.0, 'B': 2.0}, {'C': 7.0})
+               if not (t == ['env', 'pool', 'deep'] and 'B' in c)]
+
+
 class Reissuer(Process):
     """issues scripted structural directives; with cached=True the SAME dict objects are returned again and again (a
     process that builds its directive once), otherwise an equal fresh copy each time -- both must behave identically"""
@@ -556,7 +697,7 @@ def main():
     if a.replay:
         rec = json.load(open(a.replay))
         h = rec['scenario']
-        fails = check_reissue(h) if rec.get('kind') == 'reissue' else check_history(h, a.prop)
+        fails = check_reissue(h) if rec.get('kind') == 'reissue' else check_cargo_move(h['target'], h['cargo']) if rec.get('kind') == 'cargo' else (check_moved_views(h) if rec.get('kind') == 'moved' else check_history(h, a.prop))
         L.emit_result({'status': 'reproduced' if fails else 'not-reproduced', 'failed': fails})
         return
     n = {'quick': 150, 'thorough': 5000}[a.tier]
@@ -578,7 +719,27 @@ def main():
             failures.append({'id': '%s.bounded.history#%d: %s' % (a.prop, i, fails[0][:260]), 'replay': rp})
             if len(failures) >= 3:
                 break
+    if a.prop in ('C07', 'C10'):
+        for mi, script in enumerate(MOVE_SCRIPTS):
+            if len(failures) >= 3:
+                break
+            evaluations += 1
+            fails = check_moved_views(script)
+            distinct.add('moved-%d' % mi)
+            if fails:
+                rp = L.write_replay(a.out, a.prop, 'moved%d' % mi, script, fails, kind='moved', extra={'driver': 'bounded.struct'})
+                failures.append({'id': '%s.bounded.moved#%d: %s' % (a.prop, mi, fails[0][:260]), 'replay': rp})
     if a.prop == 'C09':
+        for gi, (target, cargo) in enumerate(CARGO_CASES):
+            if len(failures) >= 3:
+                break
+            evaluations += 1
+            fails = check_cargo_move(target, cargo)
+            distinct.add('cargo-%d' % gi)
+            if fails:
+                rp = L.write_replay(a.out, a.prop, 'cargo%d' % gi, {'target': target, 'cargo': cargo}, fails, kind='cargo',
+                                    extra={'driver': 'bounded.struct'})
+                failures.append({'id': '%s.bounded.cargo#%d: %s' % (a.prop, gi, fails[0][:260]), 'replay': rp})
         for ci, case in enumerate(reissue_cases()):
             if len(failures) >= 3:
                 break
